@@ -468,6 +468,40 @@ func TestLbvcBoundedCrash(t *testing.T) {
 			}
 			crashHook = nil
 			run.l.Close()
+			// a SECOND death, while the restart that follows the first is dealing with what the first left behind (the
+			// removals / renames of recovery are file-system effects like any other): the image is reopened on a copy with
+			// the hook armed; every hit of a recovery crash point gives a second-level image, checked like the first
+			var second []*lbvcCrashImage
+			for _, img := range run.images {
+				work := img.dir + "-recovering"
+				if lbvcCopyDir(img.dir, work) != nil {
+					continue
+				}
+				hits := 0
+				crashHook = func(name string) {
+					if !strings.HasPrefix(name, "recover:") {
+						return
+					}
+					hits++
+					dst := fmt.Sprintf("%s-2nd-%d", img.dir, hits)
+					if lbvcCopyDir(work, dst) != nil {
+						return
+					}
+					second = append(second, &lbvcCrashImage{dir: dst, point: img.point + " and again, in the restart, at " + name, hit: img.hit,
+						completed: img.completed, inflight: img.inflight, mayLose: img.mayLose, hw: img.hw, desc: img.desc})
+				}
+				o2 := opts
+				o2.Path = work
+				func() {
+					defer func() { recover() }()
+					if lg, err := New(o2); err == nil {
+						lg.Close()
+					}
+				}()
+				crashHook = nil
+				os.RemoveAll(work)
+			}
+			run.images = append(run.images, second...)
 			for _, img := range run.images {
 				evaluations++
 				points[img.point] = true
